@@ -1,0 +1,13 @@
+//go:build verif
+
+package fzf
+
+// Verification hook (build tag "verif" only): lets a test harness observe and
+// act at named points inside functions. Never compiled into a normal build.
+var verifHook func(point string, a int, b int)
+
+func verifPoint(point string, a int, b int) {
+	if h := verifHook; h != nil {
+		h(point, a, b)
+	}
+}
